@@ -218,18 +218,6 @@ def _slug(state, toktext):
     return base + ("-token" if tok else "")
 
 
-def _family(slug):
-    if slug in ("token-ending-in-dot", "dotted-token"):
-        return slug
-    if slug.startswith("fstring-field-"):
-        return "fstring-field"
-    if slug.endswith("-token"):
-        return "token"
-    if slug.startswith("fstring-"):
-        return slug
-    return "construct"
-
-
 def _compile_harmless(item):
     """Top-level forms that are known to compile (the REPL compiles the forms
     it has read before it reads on, so an earlier form that is a compile-time
